@@ -110,5 +110,76 @@ func c14udpReturn(c *ctx, r *rng) {
 		o.case_(fmt.Sprint("udp-return", serial), n > 8192)
 		o.stat("udp_return_datagrams", 1)
 	}
+	// two applications at once: each must only ever see its own datagrams (the per-stream goroutines of RouteUDP run
+	// concurrently; loopback UDP may drop under pressure, so only the CONTENT of what arrives is judged)
+	app2, err := net.DialUDP("udp", nil, local.LocalAddr().(*net.UDPAddr))
+	if err == nil {
+		defer app2.Close()
+		app2.Write([]byte("hello2"))
+		var ps2 *mux.Stream
+		go func() {
+			cn, err := rx.Accept()
+			if err != nil {
+				acc <- nil
+				return
+			}
+			acc <- cn.(*mux.Stream)
+		}()
+		select {
+		case ps2 = <-acc:
+		case <-time.After(10 * time.Second):
+		}
+		if ps2 != nil {
+			ps2.Read(hb)
+			const each = 250
+			send := func(st *mux.Stream, tag byte, seed uint64) {
+				rr := &rng{seed}
+				for i := 0; i < each; i++ {
+					d := bytes.Repeat([]byte{tag}, 1+rr.intn(1200))
+					if _, err := st.Write(d); err != nil {
+						return
+					}
+				}
+			}
+			type res struct {
+				n       int
+				foreign string
+			}
+			recv := func(a *net.UDPConn, tag byte, out chan res) {
+				b := make([]byte, 70000)
+				n := 0
+				for n < each {
+					a.SetReadDeadline(time.Now().Add(1500 * time.Millisecond))
+					k, err := a.Read(b)
+					if err != nil {
+						break
+					}
+					n++
+					for i := 0; i < k; i++ {
+						if b[i] != tag {
+							out <- res{n, fmt.Sprintf("datagram #%d of %d bytes: byte %d is %q, this application's datagrams consist of %q", n, k, i, b[i], tag)}
+							return
+						}
+					}
+				}
+				out <- res{n, ""}
+			}
+			r1, r2 := make(chan res, 1), make(chan res, 1)
+			go recv(app, 'A', r1)
+			go recv(app2, 'B', r2)
+			go send(ps, 'A', r.next())
+			go send(ps2, 'B', r.next())
+			x1, x2 := <-r1, <-r2
+			for _, x := range []res{x1, x2} {
+				if x.foreign != "" {
+					o.V("C14 datagram-mixed-with-another-stream at the client's udp return path", map[string]any{"what": x.foreign, "method": method,
+						"replay": "real client.RouteUDP; two local UDP applications, one stream each; the peer writes 250 datagrams of one repeated letter on each stream concurrently"})
+					break
+				}
+			}
+			o.stat("udp_return_concurrent_received", x1.n+x2.n)
+			o.case_("udp-return-concurrent", true)
+		}
+	}
 	o.sample(fmt.Sprintf("udp return: peer stream writes datagrams of %v bytes, the local UDP application behind the real client.RouteUDP must read each whole", sizes[:9]))
 }
